@@ -1,5 +1,5 @@
 (** C06 over the Go source (Generated/Src.v: ValidateOCRA, validateRFC6287, validate, GenerateOCRA). *)
-From OtpV Require Import Prelude Sha GoSem Tables Decoder Derive Otp Ocra Errors Src SrcLift SrcEqOtp SrcEqOcra SrcTop C06.
+From OtpV Require Import Prelude Sha GoSem Tables Decoder Derive Otp Ocra Errors Src SrcLift SrcTop SrcEqDecode SrcEqOtp SrcEqOcraV SrcEqOcra C06.
 Open Scope N_scope.
 
 Theorem C06src_iff : forall fuel junk jm jm' secret code cfg i, runs fuel junk secret -> small_input i ->
